@@ -186,22 +186,8 @@ Lemma pread_spec mtu st u stream a1 a2 ps st' stream' r :
 Proof.
   intros Hmtu Hps Hu [Herr Hrep]. unfold pread. rewrite Herr.
   (* phase 1 *)
-  assert (P1 : exists st1 stream1,
-    (if lenN (pr_hdr st) <? SZW then
-        let n := N.min a1 (SZW - lenN (pr_hdr st)) in
-        let hdr := pr_hdr st ++ takeN n stream in
-        let stream1 := dropN n stream in
-        if lenN hdr =? SZW then
-          match rd32 hdr with
-          | Some (sz, _) =>
-              if mtu <? sz then (mkPR hdr (pr_size st) (pr_data st) true, stream1, true)
-              else if sz =? 0 then (mkPR [] 0 [] false, stream1, false)
-              else (mkPR hdr sz [] false, stream1, false)
-          | None => (mkPR hdr (pr_size st) (pr_data st) false, stream1, false)
-          end
-        else (mkPR hdr (pr_size st) (pr_data st) false, stream1, false)
-      else (st, stream, false)) = (st1, stream1, false) /\ rep st1 stream1 ps).
-  { destruct (lenN (pr_hdr st) <? SZW) eqn:Hh.
+  assert (P1 : exists st1 stream1, pread_hdr mtu st stream a1 = (st1, stream1, false) /\ rep st1 stream1 ps).
+  { unfold pread_hdr. destruct (lenN (pr_hdr st) <? SZW) eqn:Hh.
     2:{ exists st, stream. split; [reflexivity|split; assumption]. }
     apply N.ltb_lt in Hh.
     destruct Hrep as [(_ & Hsz & Hdat & Hfr)|(p & ps' & _ & Hhd & _)].
@@ -253,9 +239,9 @@ Proof.
     { apply lenN_0_nil. assert (H : lenN p = lenN ((pr_data st1 ++ takeN n stream1) ++ e)) by now rewrite <- Ep.
       rewrite lenN_app in H. lia. }
     subst e. rewrite app_nil_r in Ep. cbn [app] in Es.
-    inversion Hps as [|? ? [Hp0 Hpm] Hps']; subst ps'0.
+    assert (Hpk : pkt_ok mtu p) by (inversion Hps; assumption). destruct Hpk as [Hp0 Hpm].
     split; [reflexivity|]. split; [rewrite <- Ep, takeN_all by lia; reflexivity|].
-    split; [reflexivity|]. left. cbn [pr_hdr pr_size pr_data]. repeat split; [unfold SZW; change (lenN (@nil byte)) with 0; lia|exact Es].
+    split; [reflexivity|]. left. cbn [pr_hdr pr_size pr_data]. split; [unfold SZW; change (lenN (@nil byte)) with 0; lia|]. split; [reflexivity|]. split; [reflexivity|exact Es].
   - apply N.eqb_neq in Hfin. left. split; [reflexivity|]. split; [reflexivity|]. right.
     exists p, ps'. cbn [pr_hdr pr_size pr_data]. repeat split; try assumption.
     + assert (H : lenN p = lenN ((pr_data st1 ++ takeN n stream1) ++ e)) by now rewrite <- Ep.
@@ -348,3 +334,13 @@ Proof.
   destruct (packetized_read_stream mtu script _ _ _ _ _ _ Hmtu Htk Hsc (rep_init _) Hr) as [Hnone (ps' & Hd & Hrep)].
   apply rep_exhausted in Hrep; [|exact Hh]. subst ps'. rewrite app_nil_r in Hd. auto.
 Qed.
+
+(* non-vacuity: a busy writer (second Write returns 0 and is retried), partial flushes, a reader fed a few bytes at a time *)
+Example packetized_nontrivial :
+  let wops := [WWrite [x01; x02; x03] 2 0; WWrite [x09] 1 9; WWrite [x09] 9 9; WFlush 99] in
+  let script := [(8, 3, 9); (8, 0, 0); (8, 1, 1); (8, 9, 2); (8, 9, 9); (8, 9, 9)] in
+  let '(wst, out, wrs) := pwrites 8 pw_init wops in
+  let '(rst, rest, rrs) := preads 8 pr_init out script in
+  wops_nonempty wops /\ pw_buffered wst = false /\ rest = [] /\ pr_hdr rst = []
+  /\ wrs = [WTook 3; WTook 0; WTook 1] /\ handed rrs = [[x01; x02; x03]; [x09]].
+Proof. vm_compute. repeat split; reflexivity. Qed.
